@@ -63,7 +63,15 @@ Level1 == Containers(CoreAtoms, KeyAtoms, Key1Vals)
 Tiny   == {AtomVal(Atoms[i].id) : i \in {j \in 1..Len(Atoms) : Atoms[j].tiny}}
 Tiny2  == {AtomVal("none"), AtomVal("i0")}
 Level2 == Containers(Tiny \cup Containers(Tiny2, {AtomVal("s_a")}, {AtomVal("s_a"), AtomVal("i1"), AtomVal("s_1")}), {}, {})
-Universe == AllAtoms \cup Level1 \cup (IF Depth >= 2 THEN Level2 ELSE {})
+(* a dataclass inside a dataclass / a list (the class of the inner one is part of the value), next to *)
+(* the dict with the same fields; an unsupported, non-copyable value in a dataclass field            *)
+NestedDC ==
+  LET ab(x, y) == <<<<"a", x>>, <<"b", y>>>>
+      inner == {[t |-> "dc", cls |-> c, items |-> ab(AtomVal("i1"), AtomVal("i0"))] : c \in {"DC1", "DC2"}}
+               \cup {[t |-> "dict", items |-> <<<<AtomVal("s_a"), AtomVal("i1")>>, <<AtomVal("s_b"), AtomVal("i0")>>>>]}
+  IN {[t |-> "dc", cls |-> "DC1", items |-> ab(x, AtomVal("i0"))] : x \in inner \cup {AtomVal("u_lock")}}
+     \cup {[t |-> "list", items |-> <<x>>] : x \in inner}
+Universe == AllAtoms \cup Level1 \cup NestedDC \cup (IF Depth >= 2 THEN Level2 ELSE {})
 
 (* documented identifications hold in Canon, and nothing else is merged *)
 ASSUME \A s \in SeqsUpTo(CoreAtoms, 2) :
